@@ -198,15 +198,17 @@ func (r *RefCount[T]) WaitWithReleased(ctx context.Context, released func()) (pr
 	var currResolved bool
 	var currNonce uint32
 	var callReleasedOnce sync.Once
-	var ref *Ref[T]
-	ref = r.AddRef(func(resolved bool, val T, err error) {
+	// refCh hands the reference to the goroutine below: the callback can be
+	// invoked (and the goroutine started) before AddRef has returned.
+	refCh := make(chan *Ref[T], 1)
+	ref := r.AddRef(func(resolved bool, val T, err error) {
 		// note: r.mtx is held while calling this function.
 		// check if state is different, if we returned already.
 		if currResolved {
 			if !resolved || r.nonce != currNonce {
 				callReleasedOnce.Do(func() {
 					go func() {
-						ref.Release()
+						(<-refCh).Release()
 						if released != nil {
 							released()
 						}
@@ -221,6 +223,7 @@ func (r *RefCount[T]) WaitWithReleased(ctx context.Context, released func()) (pr
 			prom.SetResult(val, err)
 		}
 	})
+	refCh <- ref
 	return prom, ref
 }
 
